@@ -38,6 +38,7 @@ Expected(e) ==
       [] e.e = "val.massign" -> IF e.src = e.dst THEN With(store, e.src, U) ELSE With(With(store, e.src, U), e.dst, store[e.src])
       [] e.e = "val.mutate"  -> With(store, e.slot, Obs(e)[e.slot])
       [] e.e = "val.eq"      -> store
+      [] e.e = "val.selfset" -> store
 
 EqFails(e) ==
     LET x == store[e.a]  y == store[e.b] IN
@@ -54,7 +55,7 @@ OpFails(e) ==
     (IF ~Agrees(Obs(e), exp) THEN {"C14"} ELSE {})
     \cup (IF e.e = "val.eq" THEN EqFails(e) ELSE {})
 
-Ops == {"val.make", "val.copy", "val.assign", "val.move", "val.massign", "val.mutate", "val.eq"}
+Ops == {"val.make", "val.copy", "val.assign", "val.move", "val.massign", "val.mutate", "val.eq", "val.selfset"}
 
 Step ==
     /\ l <= Len(Log)
